@@ -217,20 +217,17 @@ Fixpoint ubound (fuel : nat) (F : list fact) (o : operand) : option Z :=
 Definition UFUEL : nat := 8.
 
 (* pointer = base of allocation id + o + d with 0 <= d <= u *)
+Definition try_bp (F : list fact) (asz : Z -> Z) (b i : operand) : option (Z * Z * Z) :=
+  match resolve RFUEL F asz b with
+  | (Some id, Some o) => match ubound UFUEL F i with Some u => Some (id, o, u) | None => None end
+  | _ => None
+  end.
 Definition bounded_ptr (F : list fact) (asz : Z -> Z) (p : operand) : option (Z * Z * Z) :=
   match p with
   | OVar x =>
       match find_def F x with
       | Some (op, [q1; q2]) =>
-          if op =s "add" then
-            match resolve RFUEL F asz q1, ubound UFUEL F q2 with
-            | (Some id, Some o), Some u => Some (id, o, u)
-            | _, _ => match resolve RFUEL F asz q2, ubound UFUEL F q1 with
-                      | (Some id, Some o), Some u => Some (id, o, u)
-                      | _, _ => None
-                      end
-            end
-          else None
+          if op =s "add" then match try_bp F asz q1 q2 with Some r => Some r | None => try_bp F asz q2 q1 end else None
       | _ => None
       end
   | _ => None
